@@ -919,6 +919,7 @@ MHD_str_remove_token_caseless_ (const char *str,
     {
       /* 'token' matched, check that current input token does not have
        * any suffixes */
+      const char *const match_end = s1; /**< the char after the matched part */
       while ( ((size_t) (s1 - str) < str_len) &&
               ((' ' == *s1) || ('\t' == *s1)) )
         s1++;
@@ -930,6 +931,9 @@ MHD_str_remove_token_caseless_ (const char *str,
         token_removed = true;
         continue;
       }
+      /* Not a full match: the whitespace after the matched part must be
+       * normalised like any other whitespace, not copied as is */
+      s1 = match_end;
     }
 
     /* 's1' points to first non-whitespace char, to some char after
